@@ -955,25 +955,43 @@ def check_triangulation(ctx: Ctx):
     m = ctx.model
     fi = m.func(f"{DROP}.SphericalDroplet.get_triangulation")
     fv = view(m, fi)
+    from ..astutil import value_cases, mini_eval
+
     n = 0
+    seen = set()
     for node in fv.return_nodes():
-        v = node.stmt.value
-        if not isinstance(v, ast.Dict):
+        if node.stmt.value is None:
             continue
-        for k, val in zip(v.keys, v.values):
-            if isinstance(k, ast.Constant) and k.value == "vertices":
-                n += 1
-                ex = fv.expand(val, node.stmt)
-                dim = None
-                for test, pol in stmt_index(fv).guards(node.stmt):
-                    if pol and isinstance(test, ast.Compare) and U(test.left) == "self.dim" and isinstance(test.comparators[0], ast.Constant):
-                        dim = test.comparators[0].value
-                site = f"{fi.qualname}:vertices[dim={dim}]"
-                ok = isinstance(ex, ast.Call) and isinstance(ex.func, ast.Attribute) and ex.func.attr == "interface_position" and U(ex.func.value) == "self"
-                nargs = len(ex.args) if ok else 0
-                ok = ok and (dim is None or nargs == dim - 1)
-                ctx.decide(ok, "TRIANG", site, (fi, node.stmt), f"vertices = self.interface_position(<{nargs} angle(s)>) — dispatches to the perturbed shape",
-                           f"triangulation vertices are `{U(val)[:70]}`, not self.interface_position(...) with {dim - 1 if dim else '?'} angle(s): perturbed subclasses then get vertices that do not lie on their interface")
+        for dec, val in value_cases(fv, node.stmt, node.stmt.value):
+            if not isinstance(val, ast.Dict):
+                continue
+            # dimensions for which this path is taken (truth table over self.dim)
+            dims = []
+            for d in (1, 2, 3, 4):
+                ok_d = True
+                for ttxt, outc in dec.items():
+                    if "self.dim" not in ttxt:
+                        continue
+                    try:
+                        if bool(mini_eval(ast.parse(ttxt.replace("self.dim", "DIMV"), mode="eval").body, {"DIMV": d})) != outc:
+                            ok_d = False
+                    except (ValueError, SyntaxError):
+                        pass
+                if ok_d:
+                    dims.append(d)
+            dim = dims[0] if len(dims) == 1 else None
+            for k, ex in zip(val.keys, val.values):
+                if isinstance(k, ast.Constant) and k.value == "vertices":
+                    site = f"{fi.qualname}:vertices[dim={dim}]"
+                    if site in seen:
+                        continue
+                    seen.add(site)
+                    n += 1
+                    ok = isinstance(ex, ast.Call) and isinstance(ex.func, ast.Attribute) and ex.func.attr == "interface_position" and U(ex.func.value) == "self"
+                    nargs = len(ex.args) if ok else 0
+                    ok = ok and (dim is None or nargs == dim - 1)
+                    ctx.decide(ok, "TRIANG", site, (fi, node.stmt), f"vertices = self.interface_position(<{nargs} angle(s)>) — dispatches to the perturbed shape",
+                               f"triangulation vertices are `{U(ex)[:70]}`, not self.interface_position(...) with {dim - 1 if dim else '?'} angle(s): perturbed subclasses then get vertices that do not lie on their interface")
     if n == 0:
         ctx.undecided("TRIANG", fi.qualname, fi, "no returned dict with a 'vertices' entry")
 
